@@ -11,6 +11,7 @@ import (
 	"time"
 
 	"github.com/nyaruka/gocommon/dates"
+	"github.com/nyaruka/goflow/contactql"
 	"github.com/nyaruka/goflow/flows"
 	"github.com/nyaruka/goflow/flows/modifiers"
 
@@ -228,7 +229,12 @@ func (u *universe) membershipErrors(c *flows.Contact) []string {
 		}
 		grp := u.group(i)
 		in := c.Groups().FindByUUID(grp.UUID()) != nil
-		want := grp.CheckQueryBasedMembership(u.env, c)
+		// "active and the group's query matches": evaluated here from the query text, not through the group object
+		q, err := contactql.ParseQuery(u.baseEnv, g.Query, u.sa.Fields())
+		if err != nil {
+			panic(err)
+		}
+		want := c.Status() == flows.ContactStatusActive && contactql.EvaluateQuery(u.env, q, c)
 		if in != want {
 			errs = append(errs, fmt.Sprintf("group %s (%s): member=%v, active-and-matches=%v", g.Name, g.Query, in, want))
 		}
